@@ -1597,7 +1597,9 @@ class Sequential(Context):
 
             return obj
 
-        self.visit_objects(visit_objects)
+        # The always expression is emitted as a separate concurrent block,
+        # the objects it drives cannot be reset by the process.
+        self.visit_objects(visit_objects, include_always_expr=False)
 
         def visit_statements(stmt):
             if isinstance(stmt, _ResetContext):
@@ -1662,9 +1664,9 @@ class Sequential(Context):
         except Exception as err:
             raise VisitException(self, err)
 
-    def visit_objects(self, operation: Callable):
+    def visit_objects(self, operation: Callable, include_always_expr=True):
         try:
-            if self._always_expr is not None:
+            if include_always_expr and self._always_expr is not None:
                 self._always_expr.code().visit_objects(operation)
 
             if isinstance(self._sensitivity, _SensitivityList):
